@@ -513,13 +513,18 @@ pub fn replay(ctx: &mut Ctx, stage: &str, case: &Value) -> Result<(), String> {
     let hexs = case.get("cbor_hex").and_then(|v| v.as_str()).ok_or("bad case")?;
     let b = crate::core::unhex(hexs);
     let inj = Inject { ints: vec![(0x40, 1), (0xFF, 3), (0x0A, 5)], texts: vec![(1, 2)], at: 5 };
+    // the case is the message as the library encoded it when the failure was found; a tree whose library
+    // cannot decode it (e.g. the failure was a renumbered member) cannot replay it
+    fn dec<T: serde::de::DeserializeOwned>(b: &[u8]) -> Result<T, String> {
+        from_cbor::<T>(b).map_err(|e| format!("NOT-APPLICABLE: the recorded encoding does not decode with this tree's library ({e})"))
+    }
     match stage {
-        "mc-request" => check_msg(ctx, &from_cbor::<make_credential::Request>(&b)?, &inj),
-        "mc-response" => check_msg(ctx, &from_cbor::<make_credential::Response>(&b)?, &inj),
-        "ga-request" => check_msg(ctx, &from_cbor::<get_assertion::Request>(&b)?, &inj),
-        "ga-response" => check_msg(ctx, &from_cbor::<get_assertion::Response>(&b)?, &inj),
-        "gi-response" => check_msg(ctx, &from_cbor::<get_info::Response>(&b)?, &inj),
-        "hmac-input" => check_msg(ctx, &from_cbor::<HmacGetSecretInput>(&b)?, &inj),
+        "mc-request" => check_msg(ctx, &dec::<make_credential::Request>(&b)?, &inj),
+        "mc-response" => check_msg(ctx, &dec::<make_credential::Response>(&b)?, &inj),
+        "ga-request" => check_msg(ctx, &dec::<get_assertion::Request>(&b)?, &inj),
+        "ga-response" => check_msg(ctx, &dec::<get_assertion::Response>(&b)?, &inj),
+        "gi-response" => check_msg(ctx, &dec::<get_info::Response>(&b)?, &inj),
+        "hmac-input" => check_msg(ctx, &dec::<HmacGetSecretInput>(&b)?, &inj),
         other => Err(format!("unknown stage {other}")),
     }
 }
